@@ -33,6 +33,11 @@ GROUPS = {
         U("dagadmin", "ExecutionPostInit"), U("dagadmin", "PostCall"), U("dagadmin", "ResultsProperty"), U("dagadmin", "ConfigFromDict"),
     ],
     "nodeexec": [U("nodeexec", "Execute"), U("nodeexec", "Dependencies"), U("nodeexec", "ConfToValues")],
+    "graphbuild": [U("graphbuild", "AddExecNode"), U("graphbuild", "FromExecNodes")],
+    "nodebuild": [
+        U("nodebuild", "MakeDefaultValueUxn"), U("nodebuild", "MakeArgs"), U("nodebuild", "MakeKwargs"), U("nodebuild", "MakeActive"),
+        U("nodebuild", "UsageExecNodeProperty"), U("nodebuild", "ValidateDependencies"), U("nodebuild", "ExecNodePostInit"), U("nodebuild", "LazyCall"),
+    ],
     "threads": [U("threads", "InDescriptionContext"), U("threads", "ThreadsafeMakeDag")],
 }
 
